@@ -34,7 +34,7 @@ OPS = ["+", "-", "*", "/"]
 
 class AsmExpr:
     name = "asm_expr"
-    props = ("C04", "C02", "C12", "C13")
+    props = ("C04", "C02", "C12", "C13", "C17")
 
     def cells(self, tier):
         out = []
